@@ -1,3 +1,3 @@
-Require Import LV.Model.NegState LV.Model.NegModel LV.Gen.Gen_neg.
+Require Import LV.Model.NegState LV.Model.NegModel LV.Gen.Gen_neg LV.Spec.NegSpec.
 Require Import ExtrOcamlBasic.
-Extraction "c13_model" init_state step run scram_order.
+Extraction "c13_model" init_state step run scram_order check_all_init.
